@@ -78,6 +78,39 @@ CLAIMED.update({
         "design": "DESIGN.md section 3 C20",
     },
 })
+CLAIMED.update({
+    "C05": {
+        "text": "Engine-F key-determinacy clauses (half (ii) of cache transparency): for the T1 stage cache, the T2 stage cache and the turn-level "
+                "cache, every declared input of the fresh computation that is read after the lookup, and every configuration key read after "
+                "the lookup, feeds the key expression (name-level dependency closure over the bindings preceding the lookup, computed from "
+                "the AST on every run); the graph etag used as version component hashes graph content. Half (i) (a hit returns the value "
+                "stored under an equal key) is the C15 container contracts. Four violated clauses were repaired in /repo (fix: commits), "
+                "two are recorded as known findings.",
+        "note": "Name-level closure: a whole object (ctx, state, index) counts as feeding the key when any value derived from it does; "
+                "index_version() and state.version_etag are trusted to change with content; TTL vs the real clock, memory pressure and the "
+                "relational claim over mutation histories are not decided.",
+        "design": "DESIGN.md section 3 C05",
+    },
+    "C09": {
+        "text": "Contract-based deductive proof of run_parallel over opaque tasks with an arbitrary failing subset: both branches hand merge_fn "
+                "every (key, result) once, ordered by (order_key, submit index); failures: merge not called, sequential stops at the first, "
+                "the pool reports every failure sorted; all run_parallel call sites in /repo satisfy its precondition (AST obligations); "
+                "merge_tier_hits_across_shards_dict (<= k distinct ids, tier order, (-qscore,id)), _iter_shards_for_t2 (contiguous partition).",
+        "note": "ThreadPoolExecutor.submit/Future.result is a trusted model (results read in submit order). Equality of the parallel and "
+                "sequential T1/T2 stage results (fold equivalence, shard path vs. tier walk) is NOT decided by this check; real thread "
+                "interleavings are not modelled. Precondition k >= 1 on the shard merge.",
+        "design": "DESIGN.md section 3 C09",
+    },
+    "C10": {
+        "text": "Contract-based deductive proof of _select_independent_batch (subsequence, <= max(1,workers), pairwise disjoint graph sets, "
+                "greedy-maximal), _resolve_graphs_for_agent (never raises), _sort_turn_buffers (stable permutation by (turn, slice)), and "
+                "the two drain-flush-retry regions of _run_agents_parallel_batch against the LogStager interface: record staged last, "
+                "whole buffer flushed in drain order on back-pressure, nothing lost or duplicated, no exception for any byte limit >= 1.",
+        "note": "The LogStager interface used by the regions is an assumed contract here (the class itself is under contract in C16). "
+                "Equality of batch and sequential execution with the real stage pipeline is not decided (the dry-run path skips T3: see DESIGN).",
+        "design": "DESIGN.md section 3 C10",
+    },
+})
 PENDING_REASON = "check not built yet (construction in progress, see DESIGN.md section 3)"
 NA = {}
 
